@@ -32,12 +32,12 @@ from lxml import etree
 
 from mbt.catalog import sinks as C
 
-AMP, LT, GT, QUOT, APOS, CDEND, ENT, CDOPEN, PLAIN, SP, NBSP, ASTRAL, C1, TAB, LF, CR, ELEM, PCT, FMT = range(1, 20)
+AMP, LT, GT, QUOT, APOS, CDEND, ENT, CDOPEN, PLAIN, SP, NBSP, ASTRAL, C1, TAB, LF, CR, ELEM, PCT, FMT, XESC = range(1, 21)
 CLASS_NAMES = {1: "AMP", 2: "LT", 3: "GT", 4: "QUOT", 5: "APOS", 6: "CDEND", 7: "ENT", 8: "CDOPEN", 9: "PLAIN", 10: "SP", 11: "NBSP",
-               12: "ASTRAL", 13: "C1", 14: "TAB", 15: "LF", 16: "CR", 17: "ELEM", 18: "PCT", 19: "FMT"}
+               12: "ASTRAL", 13: "C1", 14: "TAB", 15: "LF", 16: "CR", 17: "ELEM", 18: "PCT", 19: "FMT", 20: "XESC"}
 BASE_ALPHA = [AMP, LT, GT, QUOT, APOS, CDEND, ENT, CDOPEN, PLAIN, SP]
 CORE_ALPHA = [AMP, LT, GT, QUOT, APOS, CDEND, PLAIN, SP]        # length 3 (thorough): the single-character classes and "]]>"
-WIDE_ALPHA = [NBSP, ASTRAL, C1, ELEM, PCT, FMT]   # FMT: a str.format / printf field such as "{0}" or "%s" (a template layer must not interpret it)                      # PCT: a percent-escape such as "%20" (a URL layer must not decode or re-encode it)                           # ELEM: a complete element such as "<b/>" (makes structure if not escaped)
+WIDE_ALPHA = [NBSP, ASTRAL, C1, ELEM, PCT, FMT, XESC]   # XESC: seven characters that look like an OOXML character escape ("_x0041_"): data, not an escape   # FMT: a str.format / printf field such as "{0}" or "%s" (a template layer must not interpret it)                      # PCT: a percent-escape such as "%20" (a URL layer must not decode or re-encode it)                           # ELEM: a complete element such as "<b/>" (makes structure if not escaped)
 CTL_ALPHA = [TAB, LF, CR]
 # representatives: every ENT representative is a well-formed reference (an unescaped sink decodes it silently), so that the
 # outcome of a case depends on its classes only and signatures do not depend on the seed
@@ -49,8 +49,9 @@ REPS = {
     C1: ["\x80", "\x85", "\x9f"], TAB: ["\t"], LF: ["\n"], CR: ["\r"], ELEM: ["<b/>", "<i></i>", "<br/>"],
     PCT: ["%20", "%41", "%25", "%2F", "%C3%A9"],
     FMT: ["{0}", "{x}", "%s", "%d", "%(a)s", "{{", "}}", "{", "}"],
+    XESC: ["_x0041_", "_x0020_", "_x000A_", "_xABCD_", "_x005F_"],
 }
-_MULTI = [(rep, cls + 32 * (0x110000 + k)) for cls in (CDOPEN, CDEND, ENT, ELEM, PCT, FMT) for k, rep in enumerate(REPS[cls])]
+_MULTI = [(rep, cls + 32 * (0x110000 + k)) for cls in (CDOPEN, CDEND, ENT, ELEM, PCT, FMT, XESC) for k, rep in enumerate(REPS[cls])]
 _MULTI.sort(key=lambda x: -len(x[0]))
 _MULTI_START = {m[0][0] for m in _MULTI}
 _MULTI_BY_TOK = {tok: rep for rep, tok in _MULTI}
